@@ -1,5 +1,6 @@
 """property id -> check function(Program, tier) -> (Result, technique)"""
 import props_solver as ps
+import props_wiring as pw
 
 CHECKS = {
     "C01": ps.check_C01,
@@ -11,4 +12,6 @@ CHECKS = {
     "C07": ps.check_C07,
     "C10": ps.check_C10,
     "C11": ps.check_C11,
+    "C13": pw.check_C13,
+    "C16": pw.check_C16,
 }
